@@ -67,7 +67,8 @@ class FrameEnv:
             expr, efr = fr.argmap[name]
             return expr, FrameEnv(efr if efr is not None else None)
         if self._defs is None:
-            self._defs = single_defs(fr.func)
+            # the definitions as the graph builder saw them (logic moved onto records read back in place, starred tuples expanded ...)
+            self._defs = single_defs(getattr(fr, 'norm_func', None) or fr.func)
         if name in self._defs:
             return self._defs[name], self
         return None
